@@ -162,6 +162,9 @@ structure ClassInfo where
   accepted : List String
   /-- exception of `add_observer` / `add_foil_detector` for a wrong type -/
   addErr : Err
+  /-- `__getitem__` hands slice keys to the member container (`self._observers[item]` in a `try`, or
+  `isinstance(item, (int, slice))` in front of `self._foil_detectors[item]`); generated from the source -/
+  sliceKeys : Bool := true
   deriving DecidableEq, Repr, Inhabited
 
 /-! ## interpreter -/
@@ -340,9 +343,12 @@ def getItem (ci : ClassInfo) (w : World) (k : Key) : Out :=
     | .int i => match pyIndex w.members i with
       | some u => .objs [u]
       | none => .err .indexError
-    | .slice a b c => match pySlice w.members a b c with
-      | some us => .objs us
-      | none => .err .valueError            -- slice step cannot be zero (raised by tuple.__getitem__, not caught)
+    | .slice a b c =>
+      if ci.sliceKeys then
+        match pySlice w.members a b c with
+        | some us => .objs us
+        | none => .err .valueError          -- slice step cannot be zero (raised by tuple.__getitem__, not caught)
+      else .err .typeError
     | .str x =>
       match w.members.filter fun u => nameOf w.heap u == x with
       | [u] => .objs [u]
@@ -357,7 +363,14 @@ def getItem (ci : ClassInfo) (w : World) (k : Key) : Out :=
       match w.members.find? fun u => nameOf w.heap u == x with
       | some u => .objs [u]
       | none => .err .valueError
-    | _ => .err .typeError                  -- slices are not accepted by BolometerCamera.__getitem__
+    | .slice a b c =>
+      -- accepted only when the source says `isinstance(item, (int, slice))`
+      if ci.sliceKeys then
+        match pySlice w.members a b c with
+        | some us => .objs us
+        | none => .err .valueError          -- list.__getitem__: slice step cannot be zero (only IndexError is caught)
+      else .err .typeError
+    | .other => .err .typeError
 
 def groupLen (w : World) : Nat := w.members.length
 
